@@ -88,13 +88,19 @@ StopListening ==
   /\ step = "done" /\ ~stopped /\ stopped' = TRUE /\ localOpen' = FALSE
   /\ UNCHANGED <<cfgNow, fault, step, pendOut, loop, asked, exists, result, why, nres>>
 
+\* the application starts the returned port again (IListeningPort.startListening): the loopback listener is back,
+\* and a later stopListening closes it again
+StartListening ==
+  /\ step = "done" /\ stopped /\ stopped' = FALSE /\ localOpen' = TRUE
+  /\ UNCHANGED <<cfgNow, fault, step, pendOut, loop, asked, exists, result, why, nres>>
+
 \* descriptor events of another onion service on the same Tor arrive: nothing changes for this listen()
 Foreign == UNCHANGED vars
 \* likewise a failed *fetch* of this service's descriptor (somebody looked the address up before it was published):
 \* Tor reports it with the same event word and our address; it is not an upload and decides nothing
 FetchFailed == UNCHANGED vars
 
-Next == Foreign \/ FetchFailed \/ Refuse \/ Listen \/ ConfigReady \/ CreateReply \/ Disconnect \/ WaitOver \/ UnsubAck \/ StopListening
+Next == Foreign \/ FetchFailed \/ Refuse \/ Listen \/ ConfigReady \/ CreateReply \/ Disconnect \/ WaitOver \/ UnsubAck \/ StopListening \/ StartListening
 Spec == Init /\ [][Next]_vars
 
 ----------------------------------------------------------------------------
